@@ -376,3 +376,6 @@ def run(ctx, rep):
     rule_stateless(ctx, rep)
     from rules.c05 import rule_units
     rule_units(ctx, rep, rid="R-C11-units")
+    # LspProject::semantic keeps a diagnostic only if one of its labels names the published file: spans must not lose their file id
+    from rules.c05 import rule_join
+    rule_join(ctx, rep, rid="R-C11-join")
